@@ -401,6 +401,11 @@ class C06(Engine):
 				c([run_op(fault={'kind': 'eacces@open', 'pick': 0.5, 'count': 1}), run_op()])
 				c([run_op(fault={'kind': 'eacces@open', 'pick': 0.5, 'count': 2}), run_op()])
 				c([run_op(True), {'op': 'edit', 'm': top, 'v': 2}, run_op(fault={'kind': 'eacces@open', 'pick': 0.0, 'count': 2}), run_op()])
+		# a target whose dotted path is a substring of an earlier target's path (src.a after src.ab / src.a_b): each header must record its own module
+		rngs = random.Random(6)
+		sub = pools.gen_pool(rngs, shape='pairs', n_variants=3, allow_invalid=False, names=['src.ab', 'src.a_b', 'src.a', 'src.d'], swap_p=0.0, box_p=0.0)
+		for order in (['src.ab', 'src.a_b', 'src.a', 'src.d'], ['src.d', 'src.a', 'src.a_b', 'src.ab']):
+			cases.append({'pool': sub, 'config': {'output_dirs': ['./out/fb']}, 'order': order, 'kind': 'canonical', 'ops': [run_op(), {'op': 'edit', 'm': 'src.a', 'v': 1}, run_op(), {'op': 'edit', 'm': 'src.ab', 'v': 1}, run_op(), {'op': 'edit', 'm': 'src.a', 'v': 2, 'dt': 1000}, run_op()]})
 		# glob stratum: targets listed by the real include_module_paths, with an overlapping glob (same target twice)
 		gp = pools.fixed_pool(1)
 		tops = sorted({m.split('.')[0] for m in gp['modules']})
